@@ -207,6 +207,13 @@ func (ft *FT) store(st *State, l *Loc, v Term) {
 		return
 	}
 	root := sel(cur, l.idx...)
+	if len(l.idx) == 0 {
+		// struct-valued cell: name each intermediate value, otherwise field-by-field initialisation
+		// of a composite literal grows exponentially
+		nv := ft.nameTerm("sv", ft.heaps[l.key].sort, ft.storePath(root, l.path, v))
+		ft.set(st, l.key, nv)
+		return
+	}
 	ft.set(st, l.key, sto(cur, l.idx, ft.storePath(root, l.path, v)))
 }
 
